@@ -49,6 +49,16 @@ def extra_programs(ctx):
             g["attrs"]["concrete_split"] = (i % 12 == 1)
         if kind == "struct" and i % 3 == 0 and not g["attrs"].get("concrete") and not any(f["attrs"] for f in fields):
             g["via_macro"] = True           # field types as `$t:ty` macro fragments
+        # a CONST generic parameter before / between / after the type parameters (the declaration binds the type parameters only,
+        # all of them, in order, wherever the const parameter stands); with a default only in last position and without defaulted types
+        cargs = []
+        if i % 4 in (0, 2) and not g.get("via_macro"):
+            has_def = any(p.get("default") for p in gens)
+            pos = [0, len(ps), 1 if len(ps) > 1 else 0, 0][i % 8 // 2] if not has_def else 0
+            g["cgen"] = [{"pos": pos, "name": "NC", "ty": ["usize", "u8", "bool"][i % 3], "default": None}]
+            cargs = [[pos, ["3", "7", "true"][i % 3]]]
+            if pos == len(ps) and not has_def and i % 8 == 2:
+                g["cgen"][0]["default"] = ["4", "9", "false"][i % 3]
         items = [leaf, inner, g]
         imap = {x["name"]: x for x in items}
         gen = gen_corpus.Gen(rng)
@@ -58,6 +68,8 @@ def extra_programs(ctx):
             for cc in g["attrs"].get("concrete") or []:
                 args[ps.index(cc["name"])] = cc["ty"]
             t = N(g["name"], *args)
+            if cargs:
+                t = dict(t, cargs=cargs)
             probes.append({"ty": t, "values": [gen.val(t, imap), gen.val(t, imap)]})
         probes.append({"ty": N(leaf["name"]), "values": []})
         probes.append({"ty": N(inner["name"], P("u8")), "values": []})
